@@ -730,7 +730,7 @@ class ChunkParser:
     the parent ``PLSSParser``.
     """
 
-    def __init__(self, text, layout, parent: PLSSParser):
+    def __init__(self, text, layout, parent: PLSSParser, hand_off=True):
         self.text = text
         self.layout = layout
         self.parent = parent
@@ -755,8 +755,13 @@ class ChunkParser:
         self.e_flag_lines = []
         self.unused_components = []
 
-        # Parsing also hands off the relevant data to the parent.
-        self.parse_safe()
+        # Parsing also hands off the relevant data to the parent (unless
+        # this is a replacement `ChunkParser`, whose data will be handed
+        # off by the `ChunkParser` that it replaces).
+        if hand_off:
+            self.parse_safe()
+        else:
+            self.parse_chunk()
 
     def parse_safe(self):
         """
@@ -834,7 +839,8 @@ class ChunkParser:
             # If no tracts identified, rerun this chunk as copy_all layout.
             # And steal the staged flags, etc. from the replacement to
             # hand off to the parent PLSSParser object.
-            replacement = ChunkParser(self.text, COPY_ALL, self.parent)
+            replacement = ChunkParser(
+                self.text, COPY_ALL, self.parent, hand_off=False)
             replacement_attributes = (
                 'w_flags', 'w_flag_lines', 'e_flags', 'e_flag_lines',
                 'unused_components', 'tract_components'
